@@ -4,6 +4,7 @@ import ast
 import z3
 
 from .types import parse_type, is_ref, ENUMS, ENUM_MEMBERS, show
+from .qf import qforall
 from .state import (V, NONE, State, Unsupported, PathEnd, PyRaise, ReturnValue, BreakLoop, ContinueLoop,
                     static, is_static, _key)
 
@@ -426,7 +427,7 @@ class ExprMixin:
         ea, eb = st.seq_elems(a), st.seq_elems(b)
         n = st.seq_len(a)
         return z3.And(n == st.seq_len(b),
-                      z3.ForAll([i], z3.Implies(z3.And(i >= 0, i < n), ea[i] == eb[i]), patterns=[ea[i], eb[i]]))
+                      qforall([i], z3.Implies(z3.And(i >= 0, i < n), ea[i] == eb[i]), patterns=[ea[i], eb[i]]))
 
     def contains(self, st, l: V, r: V, node):
         if is_static(r, "enumcls"):
@@ -609,14 +610,14 @@ class ExprMixin:
         k = z3.Int(self.ctx.fresh_name("k"))
         if step == -1:
             length = n_len
-            st.assume(z3.ForAll([k], z3.Implies(z3.And(k >= 0, k < length), new_elems[k] == src[n_len - 1 - k]),
+            st.assume(qforall([k], z3.Implies(z3.And(k >= 0, k < length), new_elems[k] == src[n_len - 1 - k]),
                                 patterns=[new_elems[k]]))
         else:
             length = z3.simplify(self.ite(st, hi > lo, hi - lo, z3.IntVal(0)))
-            st.assume(z3.ForAll([k], z3.Implies(z3.And(k >= 0, k < length), new_elems[k] == src[z3.simplify(lo + k)]),
+            st.assume(qforall([k], z3.Implies(z3.And(k >= 0, k < length), new_elems[k] == src[z3.simplify(lo + k)]),
                                 patterns=[new_elems[k]]))
             # the same relation indexed by the source position, so that a term src[j] produces new[j - lo]
-            st.assume(z3.ForAll([k], z3.Implies(z3.And(k >= lo, k < lo + length), new_elems[z3.simplify(k - lo)] == src[k]),
+            st.assume(qforall([k], z3.Implies(z3.And(k >= lo, k < lo + length), new_elems[z3.simplify(k - lo)] == src[k]),
                                 patterns=[src[k]]))
         return st.new_seq(et, base.t[0], length, new_elems, "slice")
 
@@ -627,7 +628,7 @@ class ExprMixin:
         ea, eb = st.seq_elems(a), st.seq_elems(b)
         ne = self.ctx.fresh_z("cat", z3.ArraySort(z3.IntSort(), self.ctx.sort_of(et)))
         k = z3.Int(self.ctx.fresh_name("k"))
-        st.assume(z3.ForAll([k], z3.Implies(z3.And(k >= 0, k < na + nb), ne[k] == z3.If(k < na, ea[k], eb[k - na])),
+        st.assume(qforall([k], z3.Implies(z3.And(k >= 0, k < na + nb), ne[k] == z3.If(k < na, ea[k], eb[k - na])),
                             patterns=[ne[k]]))
         return st.new_seq(et, "list", na + nb, ne, "cat")
 
@@ -639,7 +640,7 @@ class ExprMixin:
         ea, eb = st.seq_elems(a), st.seq_elems(b)
         ne = self.ctx.fresh_z("ext", z3.ArraySort(z3.IntSort(), self.ctx.sort_of(a.t[1])))
         k = z3.Int(self.ctx.fresh_name("k"))
-        st.assume(z3.ForAll([k], z3.Implies(z3.And(k >= 0, k < na + nb), ne[k] == z3.If(k < na, ea[k], eb[k - na])),
+        st.assume(qforall([k], z3.Implies(z3.And(k >= 0, k < na + nb), ne[k] == z3.If(k < na, ea[k], eb[k - na])),
                             patterns=[ne[k]]))
         st.seq_set_content(a, na + nb, ne)
 
@@ -823,7 +824,7 @@ class ExprMixin:
             for f_ in facts:
                 if any(_mentions(f_, c) for c in (base, endc)):
                     continue
-                st.assume(z3.ForAll([i], z3.Implies(z3.And(i >= 0, i < n_len), f_)))
+                st.assume(qforall([i], z3.Implies(z3.And(i >= 0, i < n_len), f_)))
             probe = z3.Int("ki")
             K = self.keys_array(st, z3.substitute(vz, (i, probe)).sexpr(), lambda x: z3.substitute(vz, (i, x)), vz.sort())
             return st.new_seq(et, kind, n_len, K, "comp")
@@ -859,14 +860,14 @@ class ExprMixin:
             pats = [res_elems[i]]
             if elem_term is not None:
                 pats.append(elem_term)
-            st.assume(z3.ForAll([i], z3.Implies(z3.And(i >= 0, i < n_len), conj_f), patterns=pats))
+            st.assume(qforall([i], z3.Implies(z3.And(i >= 0, i < n_len), conj_f), patterns=pats))
         # reference intervals of different iterations are disjoint (objects of iteration i precede those of j > i)
         bf = z3.Function(base.decl().name() + "_f", z3.IntSort(), z3.IntSort())
         ef = z3.Function(endc.decl().name() + "_f", z3.IntSort(), z3.IntSort())
         j = z3.Int(self.ctx.fresh_name("cj"))
-        st.assume(z3.ForAll([i, j], z3.Implies(z3.And(i >= 0, i < j, j < n_len), ef(i) <= bf(j)),
+        st.assume(qforall([i, j], z3.Implies(z3.And(i >= 0, i < j, j < n_len), ef(i) <= bf(j)),
                             patterns=[z3.MultiPattern(ef(i), bf(j))]))
-        st.assume(z3.ForAll([i], z3.Implies(z3.And(i >= 0, i < n_len), z3.And(alloc0 <= bf(i), bf(i) <= ef(i), ef(i) <= alloc1)),
+        st.assume(qforall([i], z3.Implies(z3.And(i >= 0, i < n_len), z3.And(alloc0 <= bf(i), bf(i) <= ef(i), ef(i) <= alloc1)),
                             patterns=[bf(i)]))
         st.alloc = alloc1
         out = st.new_seq(et, kind, n_len, res_elems, "comp")
@@ -1085,7 +1086,9 @@ class ExprMixin:
                 if c.fresh_result:
                     self._assume_fresh(st, ret, pre)
             extra = dict(frame)
-            extra["result"] = ret
+            extra["__ret__"] = ret
+            if "result" not in c.params:
+                extra["result"] = ret
             for gname in c.ghost_out:
                 if self.ctx.bound_stack:
                     raise Unsupported("ghost output of a callee inside a comprehension body")
